@@ -4,6 +4,6 @@ CONSTANTS
   Reqs = {0, 1, 3, 5}
   Mins = {0, 2}
   Guars = {0, 3}
-  Ws = {0, 1, 2, 3}
-  Totals = {0, 1, 2, 3, 4, 5, 6, 7, 8, 9, 10, 11, 12}
+  Ws = {0, 1, 3}
+  Totals = {0, 2, 3, 5, 7, 8, 11, 12}
 INVARIANT ModelOK
